@@ -174,7 +174,7 @@ class Harness:
         return w
 
     def ops(self, w):
-        ops = []
+        ops = [] if not w.model.is_running() or not self.rich else [['complete', self.agents[0]]]
         for k in self.agents:
             if w.pos[k] is None:
                 ops += [['add', k, t] for t in self._menu['targets']]
@@ -205,6 +205,10 @@ class Harness:
 
     def apply(self, w, op):
         kind, k = op[0], op[1]
+        if kind == 'complete':
+            w.model.complete()      # a finished model: placing and moving agents (post-run analysis, replay) works as before
+            w.last = ('complete', True, None)
+            return
         a = w.agents[k]
         others = {o: self._read(w, o) for o in self.agents if o != k}
         before = self._read(w, k)
@@ -333,7 +337,7 @@ class Harness:
         return self.cn(w.model, [w.agents[k] for k in self.agents])
 
     def refstate(self, w):
-        return tuple(None if w.pos[k] is None else tuple((v.numerator, v.denominator) for v in w.pos[k])
+        return (w.model.is_running(),) + tuple(None if w.pos[k] is None else tuple((v.numerator, v.denominator) for v in w.pos[k])
                      for k in self.agents)
 
     def outcome(self, w):
